@@ -41,7 +41,7 @@ def followup_universe(ex, st, name=''):
         from . import ind
         u2.sem = uni.sem
         u2.evalno = uni.evalno
-        u2.file0 = dict(getattr(uni, 'file0', {}))
+        u2.file0 = ind.files_after(uni, st)[0]        # what lies on disk after the evaluation that ended in st
         u2.axioms = list(getattr(uni, 'axioms', None) or [])
         ind.install_behaviour(u2)
     return u2
@@ -97,6 +97,12 @@ class ReevalMonitor(X.Monitor):
 
 
 _UNI_OF = {}
+
+
+def _root(st):
+    while st.parent is not None:
+        st = st.parent
+    return st
 
 
 def st2_universe(st):
@@ -215,10 +221,18 @@ def run_resume_instance(mod, nodes, edges, mode, deadline=None, max_first=20000,
             stats['capped'] = True
             break
         u2 = followup_universe(ex1, st1)
-        ex2 = X.Explorer(u2, [], fail_actions=False, abort_actions=False)
+        sm = Mo.SafetyMonitor()
+        ex2 = X.Explorer(u2, [sm], fail_actions=False, abort_actions=False)
         ex2.z = z
         _UNI_OF.clear()
         ex2.run(deadline=deadline)
+        # the resumed evaluation must be able to complete: an internal error, a panic or a stall in it is a resume defect
+        for v in ex2.violations:
+            if v.prop in ('C05', 'C06'):
+                stats['obligations'] += 1
+                _UNI_OF[id(_root(v.state))] = u2
+                add_viol('the resumed evaluation cannot complete: %s' % v.what, st1, v.state, None, v.model, frozenset(v.state.pc.items()))
+                break
         for f_ in ex2.finals[:1]:
             r_ = f_
             while r_.parent is not None:
